@@ -22,6 +22,7 @@ def main():
     if "--split-only" not in __import__("sys").argv:
         import c12_map
         c12_map.run_map(run, drv)
+        c12_map.run_map_ext(run)
         import c12_threads
         c12_threads.run_threads(run, drv)
     run.finish("proof")
